@@ -94,7 +94,7 @@ func compose(elems []AV) []AV {
 }
 
 var (
-	depth1   = compose(scalarsElem)                             // 2 + 8 + 32 = 42
+	depth1   = compose(scalarsElem)                                       // 2 + 8 + 32 = 42
 	depth2   = compose(append(append([]AV{}, scalarsElem...), depth1...)) // 2 + 92 + 4232
 	valsFull = append(append(append([]AV{}, scalarsFull...), depth1...), depth2...)
 )
@@ -237,7 +237,7 @@ func spanPool(n int) []Span {
 }
 
 type otlpShape struct {
-	scopes []int   // scopes per resource
+	scopes []int    // scopes per resource
 	slots  [][2]int // slot -> (res, scope)
 }
 
